@@ -1,6 +1,9 @@
 pub mod c01;
 pub mod c02;
 pub mod c03;
+pub mod c08;
+pub mod c09;
+pub mod c13;
 pub mod selftest;
 
 use crate::report::Report;
@@ -11,6 +14,9 @@ pub fn dispatch(ctx: &Ctx, rep: &mut Report) -> bool {
         "C01" => c01::run(ctx, rep),
         "C02" => c02::run(ctx, rep),
         "C03" => c03::run(ctx, rep),
+        "C08" => c08::run(ctx, rep),
+        "C09" => c09::run(ctx, rep),
+        "C13" => c13::run(ctx, rep),
         _ => return false,
     }
     true
